@@ -647,7 +647,7 @@ SendStep(st0, evtype, gv, eng) ==
 
 \* send_events([e1, e2]): every event is queued first, then the queue is drained
 BatchStep(st0, evs, gv, eng) ==
-  LET st == Log([st0 EXCEPT !.gv = gv], L("batch", evs[1], evs[2], {}))     \* the harness marks the call
+  LET st == Log([st0 EXCEPT !.gv = gv], L("batch", evs[1], evs[Len(evs)], {}))   \* the harness marks the call
   IN IF eng = "async" THEN
         LET RECURSIVE PutAll(_, _)
             PutAll(s, i) == IF i > Len(evs) THEN s
